@@ -143,4 +143,46 @@ theorem getOp_pushData (d : Bytes) (h : d.length ≤ 65535) :
       simp only [e, n1, n2, if_false, Bool.false_eq_true, beq_self_eq_true, if_true, toNat_ofNat_lt' _ hm,
         toNat_ofNat_lt' _ hq, hsum, Nat.lt_irrefl, List.take_length, List.drop_length]
 
+
+/-- witness data on an input whose scriptPubKey is neither a witness program nor P2SH never verifies
+under the WITNESS flag -/
+theorem witness_unexpected (fl : Flags) (chk : Checker) (sig pk : Bytes) (wit : List Bytes)
+    (hw : fl.witness = true) (hne : wit ≠ []) (hwp : witnessProgram? pk = none) (hp : isP2SH pk = false) :
+    verifyScript fl chk sig pk wit ≠ .ok () := by
+  intro h
+  unfold verifyScript at h
+  have hemp : wit.isEmpty = false := by cases wit with | nil => exact absurd rfl hne | cons _ _ => rfl
+  simp only [hw, hwp, hp, hemp, Bool.and_false, Bool.false_eq_true, if_false, if_true, bind, Except.bind, pure,
+    Except.pure, Bool.not_false, Bool.and_true, Bool.true_and] at h
+  split at h
+  · cases h
+  · split at h
+    · cases h
+    · split at h
+      · cases h
+      · split at h
+        · cases h
+        · split at h
+          · cases h
+          · cases h
+
+
+/-- a native witness program spent with a non-empty scriptSig never verifies under the WITNESS flag -/
+theorem witness_malleated (fl : Flags) (chk : Checker) (sig pk : Bytes) (wit : List Bytes) (v : Nat) (p : Bytes)
+    (hw : fl.witness = true) (hwp : witnessProgram? pk = some (v, p)) (hs : sig ≠ []) :
+    verifyScript fl chk sig pk wit ≠ .ok () := by
+  intro h
+  unfold verifyScript at h
+  have hemp : sig.isEmpty = false := by cases sig with | nil => exact absurd rfl hs | cons _ _ => rfl
+  simp only [hw, hwp, hemp, if_true, bind, Except.bind, pure, Except.pure, Bool.not_false] at h
+  split at h
+  · cases h
+  · split at h
+    · cases h
+    · split at h
+      · cases h
+      · split at h
+        · cases h
+        · cases h
+
 end BV.C06.Lemmas
